@@ -881,6 +881,20 @@ fn gen_uniform(rng: &mut Rng) -> Gen {
     (pts, format!("uniform(x{})", scale), None)
 }
 
+/// 6..16 points with many repetitions on a 2x2, 3x2 or 3x3 (x1..2) lattice, eps in {1, sqrt 2, 2}, min_samples 4..8: clusters that
+/// touch through border points, core seeds surrounded by points that are already claimed, neighbourhoods full of duplicates
+fn gen_dense_lattice(rng: &mut Rng) -> Gen {
+    let d = rng.us(2, 3);
+    let side: Vec<i64> = (0..d).map(|j| if j == 2 { rng.int(0, 1) } else { rng.int(1, 2) }).collect();
+    let n = rng.us(6, 16);
+    let nsites = rng.us(2, 6);
+    let sites: Vec<Vec<f64>> = (0..nsites).map(|_| (0..d).map(|j| rng.int(0, side[j]) as f64).collect()).collect();
+    let pts: Vec<Vec<f64>> = (0..n).map(|_| if rng.bool(0.75) { rng.pick(&sites).clone() } else { (0..d).map(|j| rng.int(0, side[j]) as f64).collect() }).collect();
+    let eps = *rng.pick(&[1.0, 1.0, std::f64::consts::SQRT_2, 2.0]);
+    let ms = rng.us(4, 8);
+    (pts, "dense-lattice(repetitions)".to_string(), Some((eps, ms)))
+}
+
 fn gen_small(rng: &mut Rng) -> Gen {
     let d = rng.us(1, 3);
     let n = if rng.bool(0.2) { 1 } else { rng.us(2, 6) };
@@ -1112,6 +1126,9 @@ fn small(c: &mut Case) {
 fn shared_border(c: &mut Case) {
     run_random(c, gen_shared_border)
 }
+fn dense_lattice(c: &mut Case) {
+    run_random(c, gen_dense_lattice)
+}
 
 /// DBSCAN expands clusters from an explicit stack that can hold a point several times. Random data keep it short
 /// (about 1.4 n at most); this family *searches* for point sets and row orders that make it long — hill climbing on
@@ -1336,7 +1353,7 @@ fn large(c: &mut Case) {
 fn main() {
     runner::main(Spec {
         property: "C13",
-        rule: "random families (blobs, chains, lattice, uniform, small, shared_border): 1..150 points in 1..4 dimensions (Gaussian blobs with background noise, equispaced / jittered / branching chains with gaps and end blobs, integer lattices with duplicates, uniform clouds, tiny sets incl. a single point and identical points, two chains sharing a non-core point within eps of a core point of each with constructed eps and min_samples = 4), f64 (80 %) or f32, Euclidean or Manhattan metric, min_samples 1..8, eps drawn over the whole range (below the smallest distance ... above the largest) both generic and exactly equal to an occurring distance; 4..14 predict queries (training rows, perturbed rows, rows at distance eps, far rows, box-uniform rows). Exhaustive families: lattice1d = every sequence of 1..6 (quick) / 1..7 (thorough) points of {0,1,2,3}; lattice2d = every ordered selection without repetition of 1..5 / 1..7 points of the 3x3 lattice; lattice2d_rep = every sequence with repetition of 1..4 / 1..5 points of the 3x3 lattice; each with eps in {1, sqrt 2, 2} x min_samples 1..4 x both metrics x both backends and 9 / 13 fixed predict queries. Every fit is run with both backends. A case is non-trivial when, for at least one checked configuration, the reference labelling has at least one cluster and additionally a second cluster, a border point or a noise point; distinct = distinct hash of (points, eps, min_samples, metric, width) resp. of the enumerated point sequence; metrics: Euclidean (50 %), Manhattan (30 %), Minkowski(3) (20 %), and the metric object handed to DBSCAN is compared with its closed form on the first 40 points (distances whose p-th powers underflow the width excepted); large: blobs, chains, lattices and uniform clouds of 1025..2000 points",
+        rule: "random families (blobs, chains, lattice, uniform, small, shared_border): 1..150 points in 1..4 dimensions (Gaussian blobs with background noise, equispaced / jittered / branching chains with gaps and end blobs, integer lattices with duplicates, uniform clouds, tiny sets incl. a single point and identical points, two chains sharing a non-core point within eps of a core point of each with constructed eps and min_samples = 4), f64 (80 %) or f32, Euclidean or Manhattan metric, min_samples 1..8, eps drawn over the whole range (below the smallest distance ... above the largest) both generic and exactly equal to an occurring distance; 4..14 predict queries (training rows, perturbed rows, rows at distance eps, far rows, box-uniform rows). Exhaustive families: lattice1d = every sequence of 1..6 (quick) / 1..7 (thorough) points of {0,1,2,3}; lattice2d = every ordered selection without repetition of 1..5 / 1..7 points of the 3x3 lattice; lattice2d_rep = every sequence with repetition of 1..4 / 1..5 points of the 3x3 lattice; each with eps in {1, sqrt 2, 2} x min_samples 1..4 x both metrics x both backends and 9 / 13 fixed predict queries. Every fit is run with both backends. A case is non-trivial when, for at least one checked configuration, the reference labelling has at least one cluster and additionally a second cluster, a border point or a noise point; distinct = distinct hash of (points, eps, min_samples, metric, width) resp. of the enumerated point sequence; metrics: Euclidean (50 %), Manhattan (30 %), Minkowski(3) (20 %), and the metric object handed to DBSCAN is compared with its closed form on the first 40 points (distances whose p-th powers underflow the width excepted); large: blobs, chains, lattices and uniform clouds of 1025..2000 points; dense_lattice: 6..16 points with many repetitions on a 2x2 .. 3x3x2 lattice, eps in {1, sqrt 2, 2}, min_samples 4..8",
         assumptions: vec![
             "neighbourhoods of the oracle are computed with the library's own metric object in the model's float type (Distances::euclidian()/manhattan()), so d == eps is decided on the identical floating-point value; both metrics are exactly symmetric in IEEE arithmetic (verified per case, otherwise inconclusive)",
             "cluster_labels / num_classes are read from serde_json::to_value(&model)",
@@ -1355,6 +1372,7 @@ fn main() {
             Family::new("uniform", 1500, 20000, uniform),
             Family::new("small", 1000, 10000, small),
             Family::new("shared_border", 1000, 10000, shared_border),
+            Family::new("dense_lattice", 4000, 60000, dense_lattice),
             Family::new("stack_stress", 64, 640, stack_stress),
             Family::new("large", 80, 500, large),
             Family::new("lattice1d", 5460, 21844, lattice1d).exhaustive(true, true),
